@@ -313,7 +313,8 @@ class Pipeline(object):
         of = tf + '.out'
         with open(tf, 'w') as f:
             json.dump({'header': {}, 'events': [{k: v for k, v in e.items() if k not in self.strip} for e in events]}, f)
-        r = core.run_tlc(self.module, None, env={'TRACE_FILE': tf, 'OUT_FILE': of}, workers=1, ctx=None)
+        # a private stand-in for ctx: TLC's metadir then lives in the run's scratch dir (removed at exit even when interrupted)
+        r = core.run_tlc(self.module, None, env={'TRACE_FILE': tf, 'OUT_FILE': of}, workers=1, ctx=_JobCtx(self.ctx.tmp))
         res = None
         if r['ok'] and os.path.exists(of):
             with open(of) as f:
@@ -370,6 +371,14 @@ class Pipeline(object):
             self.ctx.cov['events_not_recorded_after_%d_rejections' % self.SATURATED] = self.dropped
         if self.n == 0:
             raise core.MachineryError('no events were generated (vacuous run)')
+
+
+class _JobCtx(object):
+    """What core.run_tlc needs from a context (scratch dir, a run log), private to one worker thread."""
+
+    def __init__(self, tmp):
+        self.tmp = tmp
+        self.cov = {'tlc_runs': []}
 
 
 class _Done(object):
